@@ -354,8 +354,19 @@ func meet(a, b *State) *State {
 	// does not have that value at the join, control came from the other side,
 	// so what the other side knows holds
 	flagImps := func(x, y *State) {
-		for _, c := range x.m {
-			if c.Op != "true" || c.A == nil || c.A.K != 'v' {
+		for _, ck := range sortedKeys(x.m) {
+			c := x.m[ck]
+			// flag = true / false, or result = nil (the "nothing" value of a helper's result)
+			var fv *Term
+			switch {
+			case c.Op == "true" && c.A != nil && c.A.K == 'v':
+				fv = c.A
+			case c.Op == "eq" && c.Pos && c.A != nil && c.B != nil && c.A.K == 'v' && c.B.K == 'n':
+				fv = c.A
+			case c.Op == "eq" && c.Pos && c.A != nil && c.B != nil && c.B.K == 'v' && c.A.K == 'n':
+				fv = c.B
+			}
+			if fv == nil {
 				continue
 			}
 			if _, same := y.m[c.key]; same {
@@ -373,7 +384,9 @@ func meet(a, b *State) *State {
 				}
 				mentions := false
 				for _, tt := range t.terms() {
-					if tt.mentions(c.A.String()) {
+					// (for a result that is nil on the other side, what it is on this side is
+					// exactly what is wanted: result == the object the tests were made on)
+					if tt.mentions(fv.String()) && c.Op == "true" {
 						mentions = true
 					}
 				}
@@ -1048,13 +1061,52 @@ func (ff *FuncFacts) forallFacts(rs *ast.RangeStmt, st *State) *State {
 	if !ok || ifs.Init != nil || ifs.Else != nil || len(ifs.Body.List) == 0 {
 		return st
 	}
-	if _, isRet := ifs.Body.List[len(ifs.Body.List)-1].(*ast.ReturnStmt); !isRet {
+	// the guard's body never completes normally: it returns, panics or breaks out
+	// of the loop (also to a label outside it: the form inlined helpers take)
+	inner := map[string]bool{}
+	ast.Inspect(rs.Body, func(n ast.Node) bool {
+		if ls, isL := n.(*ast.LabeledStmt); isL {
+			inner[ls.Label.Name] = true
+		}
+		return true
+	})
+	var leaves func(list []ast.Stmt) bool
+	leaves = func(list []ast.Stmt) bool {
+		for _, s := range list {
+			switch x := s.(type) {
+			case *ast.ReturnStmt:
+				return true
+			case *ast.BranchStmt:
+				if x.Tok == token.BREAK && (x.Label == nil || !inner[x.Label.Name]) {
+					return true
+				}
+			case *ast.BlockStmt:
+				if leaves(x.List) {
+					return true
+				}
+			case *ast.ExprStmt:
+				if call, isC := x.X.(*ast.CallExpr); isC {
+					if id, isId := call.Fun.(*ast.Ident); isId && id.Name == "panic" {
+						if _, isB := ff.info().Uses[id].(*types.Builtin); isB {
+							return true
+						}
+					}
+				}
+			}
+		}
+		return false
+	}
+	if !leaves(ifs.Body.List) {
 		return st
 	}
 	bad := false
 	ast.Inspect(rs.Body, func(n ast.Node) bool {
-		switch n.(type) {
-		case *ast.BranchStmt, *ast.FuncLit:
+		switch x := n.(type) {
+		case *ast.BranchStmt:
+			if x.Tok != token.BREAK {
+				bad = true
+			}
+		case *ast.FuncLit:
 			bad = true
 		}
 		return true
@@ -2240,6 +2292,70 @@ func (ff *FuncFacts) assign(x *ast.AssignStmt, st *State) *State {
 		// about "the value returned here" survive reassignment of the variable
 		if (lt.K == 'v' || lt.K == 'f' || lt.K == 'i') && ff.pureTerm(rt) {
 			st = st.add(mkFact(true, "eq", lt, rt))
+			// x = y: an implication conditioned on y's truth or nil-ness is one on x's
+			if lt.K == 'v' && rt.K == 'v' {
+				rs := rt.String()
+				var add []*Fact
+				for _, k := range sortedKeys(st.m) {
+					f := st.m[k]
+					if f.Op != "imp" || f.Cond == nil || f.Then == nil || f.Cond.Op == "imp" || f.Cond.A == nil {
+						continue
+					}
+					cnd := f.Cond
+					isFlag := (cnd.Op == "true" && cnd.A.String() == rs) ||
+						(cnd.Op == "eq" && cnd.B != nil && ((cnd.A.String() == rs && cnd.B.K == 'n') || (cnd.B.String() == rs && cnd.A.K == 'n')))
+					if !isFlag {
+						continue
+					}
+					mentionsL := false
+					for _, t := range f.Then.terms() {
+						if t.mentions(lt.String()) {
+							mentionsL = true
+						}
+					}
+					if mentionsL {
+						continue
+					}
+					var b *Term
+					if cnd.B != nil {
+						b = cnd.B.subst(rs, lt)
+					}
+					add = append(add, mkImp(mkFact(cnd.Pos, cnd.Op, cnd.A.subst(rs, lt), b), f.Then))
+				}
+				st = st.with(add...)
+			}
+			// x = y on struct values: what is known about y's fields holds of x's
+			if lt.K == 'v' && rt.K == 'v' && len(x.Rhs) == len(x.Lhs) {
+				if _, isStruct := info.TypeOf(x.Rhs[i]).Underlying().(*types.Struct); isStruct {
+					rs, ls := rt.String(), lt.String()
+					var add []*Fact
+					for _, f := range st.Facts() {
+						if f.Op == "imp" || f.A == nil {
+							continue
+						}
+						hit, self := false, false
+						for _, t := range f.terms() {
+							t.walk(func(y *Term) {
+								if y.K == 'f' && len(y.Args) == 1 && y.Args[0].String() == rs {
+									hit = true
+								}
+							})
+							if t.mentions(ls) {
+								self = true
+							}
+						}
+						if !hit || self {
+							continue
+						}
+						var b *Term
+						if f.B != nil {
+							b = f.B.subst(rs, lt)
+						}
+						add = append(add, mkFact(f.Pos, f.Op, f.A.subst(rs, lt), b))
+					}
+					st = st.with(add...)
+				}
+			}
 			if isFresh(rt) || (rt.K == 'o' && rt.Name == "&" && len(rt.Args) == 1) {
 				st = st.add(mkFact(false, "eq", lt, TNil())) // a new object, or the address of something
 			}
@@ -3565,6 +3681,50 @@ func contradictory(st *State) bool {
 		if _, both := st.m[negKey(f)]; both {
 			_ = k
 			return true
+		}
+	}
+	// two different constants in one class of equal terms (x == y, y == 412, x == 0)
+	nconst := 0
+	for _, f := range st.m {
+		if f.Op == "eq" && f.Pos && f.B != nil && (f.A.K == 'c') != (f.B.K == 'c') {
+			nconst++
+		}
+	}
+	if nconst >= 2 {
+		parent := map[string]string{}
+		var find func(x string) string
+		find = func(x string) string {
+			if p, ok := parent[x]; ok && p != x {
+				r := find(p)
+				parent[x] = r
+				return r
+			}
+			parent[x] = x
+			return x
+		}
+		for _, f := range st.m {
+			if f.Op == "eq" && f.Pos && f.B != nil {
+				a, b := find(f.A.String()), find(f.B.String())
+				if a != b {
+					parent[a] = b
+				}
+			}
+		}
+		cst := map[string]string{}
+		for _, f := range st.m {
+			if f.Op != "eq" || !f.Pos || f.B == nil {
+				continue
+			}
+			for _, t := range []*Term{f.A, f.B} {
+				if t.K != 'c' {
+					continue
+				}
+				r := find(t.String())
+				if prev, ok := cst[r]; ok && prev != t.Name {
+					return true
+				}
+				cst[r] = t.Name
+			}
 		}
 	}
 	return false
